@@ -48,6 +48,7 @@ func (c07) Components() map[string]string {
 // op: I = [kind(0 oci,1 blob), key idx, format idx, size, expirySec, passPermille, nmeta, signerKind(0 local,1 plugin raw,2 plugin envelope), reader(0 plain,1 short,2 err@sign,3 err@verify), faultAt permille, agent, extraFields, mediaType idx, advanceMs]
 func (c07) Gen(r *rand.Rand, tier string, idx int) *core.Plan {
 	p := &core.Plan{World: map[string]int64{}}
+	p.World["longLivedPluginSigner"] = int64(r.IntN(2))
 	n := 1 + r.IntN(3)
 	for i := 0; i < n; i++ {
 		key := int64(r.IntN(3)) // EC
@@ -133,6 +134,8 @@ func (l c07) Exec(env *core.Env) *core.Result {
 	var trace []map[string]any
 	sim.Go("client", func() {
 		ctx := context.Background()
+		var sharedPlugin *world.SignPlugin
+		var sharedPS *signer.PluginSigner
 		for oi, op := range p.Ops {
 			rt.Yield("op")
 			isBlob := op.Int(0) == 1
@@ -185,6 +188,14 @@ func (l c07) Exec(env *core.Env) *core.Result {
 				}
 				sgn = fs
 			default:
+				if p.W("longLivedPluginSigner") == 1 && sharedPS != nil {
+					// one long-lived PluginSigner; the key behind its key id was rotated (the plugin now holds
+					// this round's key and describes it truthfully)
+					sharedPlugin.Chain, sharedPlugin.Envelope = chain, signerKind == 2
+					sgn = sharedPS
+					res.Probe("plugin_signer_reused_after_key_rotation")
+					break
+				}
 				pl := &world.SignPlugin{Name: "simsign", Chain: chain, Envelope: signerKind == 2}
 				ps, err := signer.NewPluginSigner(pl, "key-1", map[string]string{"a": "b"})
 				if err != nil {
@@ -192,6 +203,7 @@ func (l c07) Exec(env *core.Env) *core.Result {
 					return
 				}
 				sgn = ps
+				sharedPlugin, sharedPS = pl, ps
 			}
 			meta := map[string]string{}
 			for i := 0; i < nmeta; i++ {
